@@ -1003,7 +1003,8 @@ def build_engine_fgd(desc, stats: Stats):
         if i == 0:
             ent = EntityDef(EntityTypes.BASE, CBASE)
         else:
-            ent = EntityDef(EntityTypes(ENT_TYPES[ed['kind'] % len(ENT_TYPES)]), f"{ed['name']}_{i}")
+            override = (desc.get('classnames') or [None] * (i + 1))[i]
+            ent = EntityDef(EntityTypes(ENT_TYPES[ed['kind'] % len(ENT_TYPES)]), override or f"{ed['name']}_{i}")
             if ed['alias'] and i > 1:
                 ent.is_alias = True
                 ent.bases = [ents[1 + ed['target'] % (i - 1)]]
@@ -1168,7 +1169,13 @@ def lazy_strategy(tier: str):
         'then_full': st.sampled_from([False, False, False, True]),
         # 'db': EngineDB.get_ent on a fresh unserialise(); 'api': the public EntityDef.engine_def() /
         # engine_classes() / FGD.engine_dbase() with the module cache reset to "not loaded" for this case.
-        'via': st.sampled_from(['db', 'db', 'api']),
+        # 'api2': as 'api', after add_engine_database() of a generated second database (see execute_second_db)
+        'via': st.sampled_from(['db', 'db', 'db', 'api', 'api', 'api2']),
+        'second': st.fixed_dictionaries({
+            'ents': st.lists(ent_strategy(True), min_size=3, max_size=5),
+            'redefine': st.lists(st.sampled_from([n for n in names if n != CBASE]), min_size=1, max_size=2, unique=True),
+            'order': st.lists(st.integers(0, 60), min_size=3, max_size=9),
+        }),
     })
 
 
@@ -1187,8 +1194,60 @@ class _ApiDB:
         return FGD.engine_dbase()
 
 
+def execute_second_db(desc, ctx):
+    """fgd.add_engine_database() ("Add an additional binary database. This can override the existing entities"):
+    with a second database registered, single lookups and the whole-database load must still agree."""
+    import tempfile
+    from pathlib import Path
+    import srctools.fgd as fgd_mod
+    from srctools.fgd import FGD, EntityDef
+    sec = desc['second']
+    redefined = [n for n in sec['redefine'] if n.casefold() != CBASE.casefold()]   # the second database has its own
+    classnames = [None]
+    for i, ed in enumerate(sec['ents'][1:], start=1):
+        classnames.append(redefined[i - 1] if i <= len(redefined) else f"c16new_{ed['name']}_{i}")
+    new_names = [n for n in classnames[1:] if n not in redefined]
+    second = build_engine_fgd({'ents': sec['ents'], 'classnames': classnames}, Stats())
+    data = roundtrip_binary(second)
+    pool = redefined + new_names + [q[0] for q in desc['queries']] + ['zz_pad', CBASE]
+    order = [pool[i % len(pool)] for i in sec['order']]
+    fd, tmp = tempfile.mkstemp(suffix='.c16.lzma')
+    try:
+        with os.fdopen(fd, 'wb') as f:
+            f.write(data)
+        fgd_mod.add_engine_database(Path(tmp))
+        whole = FGD.engine_dbase()
+        ctx.check(sorted(EntityDef.engine_classes()) == sorted(whole.entities), 'class_set',
+                  'engine_classes() and engine_dbase() list different classes with a second database: '
+                  f'{sorted(set(EntityDef.engine_classes()) ^ set(whole.entities))[:10]}')
+        for name in order:
+            if name in redefined:
+                ctx.label('second:redefined_query')
+                ctx.nontrivial(True)
+            elif name in new_names:
+                ctx.label('second:new_query')
+            else:
+                ctx.label('second:untouched_query')
+            single = canon_ent_bin(EntityDef.engine_def(name), deep=True)
+            loaded = canon_ent_bin(whole[name], deep=True)
+            ctx.check(single == loaded, 'second_db_consistent',
+                      f'{name}: engine_def() and engine_dbase()[...] disagree after add_engine_database() '
+                      f'(redefined={redefined}, new={new_names}): {first_diff(loaded, single)}',
+                      redefined=name in redefined)
+    finally:
+        os.unlink(tmp)
+
+
 def execute_lazy(desc, ctx):
     import srctools.fgd as fgd_mod
+    if desc.get('via', 'db') == 'api2':
+        ctx.label('via_api', 'lazy:second_database')
+        fgd_mod._ENGINE_DB = None
+        try:
+            execute_second_db(desc, ctx)
+        finally:
+            fgd_mod._ENGINE_DB = None     # drops the registered database as well: nothing leaks into later cases
+        return
     if desc.get('via', 'db') == 'api':
         ctx.label('via_api')
         fgd_mod._ENGINE_DB = None     # the documented "not loaded yet" state of the cache
@@ -1266,7 +1325,8 @@ SUBCHECKS = [
                   'empty_tag_map', 'name:non_ascii_class', 'name:non_ascii_kv', 'name:non_ascii_io',
                   'name:non_ascii_res_path', 'name:non_ascii_res_tag')),
     Sub('lazy', execute_lazy, strategy=lazy_strategy, quick=120, thorough=3000, quick_shards=8, floor=20,
-        must_hit=('alias_before_base', 'then_full', 'repeat_query', 'via_api')),
+        must_hit=('alias_before_base', 'then_full', 'repeat_query', 'via_api', 'lazy:second_database',
+                  'second:redefined_query', 'second:new_query', 'second:untouched_query')),
 ]
 
 MATCHERS = {}
@@ -1304,6 +1364,9 @@ ASSUMPTIONS = [
     'aliases; no tags on keyvalues/I-O/spawnflags, no CHOICES; at least 512 distinct strings (a padding class guarantees the full '
     'shared-string table serialise() asserts); no U+001F in strings; descriptions, helpers, kv_order and "reportable" are not '
     'part of the dump',
+    'fgd.add_engine_database() is treated as public API (no underscore, docstring "can override the existing entities"): a sixth '
+    'of the lazy cases register a generated second database and compare engine_def() with engine_dbase(); the module cache is '
+    'reset to "not loaded" before and after each such case',
     'lazy: a fresh EngineDB per case, built from the bytes of fgd.lzma; the reference is get_fgd() of another fresh EngineDB',
     'pure-Python tokenizer only (no Cython build possible in this sandbox)',
 ]
